@@ -67,6 +67,13 @@ struct Pinned {
   explicit Pinned(int a) : id(a), a(a), b(0), c(0), magic(LIVE), blk(new int(a)) { reg().add(this, "Pinned"); ++stats().ctor; }
   Pinned(int a, int b) : id(a), a(a), b(b), c(0), magic(LIVE), blk(new int(a)) { reg().add(this, "Pinned"); ++stats().ctor; }
   Pinned(int a, int b, int c) : id(a), a(a), b(b), c(c), magic(LIVE), blk(new int(a)) { reg().add(this, "Pinned"); ++stats().ctor; }
+  // constructors with 4..7 arguments (the in-place append() overloads of PoolList / PoolMap exist for every arity): the extra
+  // arguments are kept as a weighted sum
+  long extra = 0;
+  Pinned(int a, int b, int c, int d) : Pinned(a, b, c) { extra = d; }
+  Pinned(int a, int b, int c, int d, int e) : Pinned(a, b, c) { extra = d + 3L * e; }
+  Pinned(int a, int b, int c, int d, int e, int f) : Pinned(a, b, c) { extra = d + 3L * e + 5L * f; }
+  Pinned(int a, int b, int c, int d, int e, int f, int g) : Pinned(a, b, c) { extra = d + 3L * e + 5L * f + 7L * g; }
   ~Pinned() { touch(this, magic, "destructor"); reg().del(this, "Pinned"); delete blk; blk = nullptr; magic = DEAD; ++stats().dtor; }
   Pinned(const Pinned&) = delete;
   Pinned& operator=(const Pinned&) = delete;
